@@ -10,7 +10,7 @@
     Spec/Disamb.v is excluded for the code; search results of parenthesised forms
     are decided by correspondence.  Statements only. *)
 From JP Require Import Base Value Lexer Parser Gen.Tables Spec.TableSpec Spec.Grammar Spec.Prec Spec.Disamb
-     Proofs.PrattProof Proofs.GrammarProof Proofs.CompleteProof.
+     Proofs.PrattProof Proofs.GrammarProof Proofs.CompleteProof Proofs.DisSoundProof Proofs.TableIso Proofs.AgreeProof.
 
 (** The binding-power table and the projection-stop threshold extracted from
     lexer.rs / parser.rs on this run have the documented order. Any change of
@@ -97,6 +97,35 @@ Theorem C04_dictated_tree_is_unique : forall T STOP c1 c2, table_order_ok T STOP
   flat c1 = flat c2 -> unoff (erase c1) = unoff (erase c2).
 Proof. exact disambiguated_grammar_unambiguous. Qed.
 Print Assumptions C04_dictated_tree_is_unique.
+
+(** The tree the reference parser returns extends every operand and projection
+    maximally (Spec/Disamb.v) and respects the binding powers: it is the tree the rules dictate. *)
+Theorem C04_reference_returns_the_dictated_tree : forall s t, ref_parse s = Ok t ->
+  exists tokens c, tokenize s = Ok tokens /\ map snd tokens = flat c ++ [TEof] /\ erase c = t /\ wf c /\
+                   prec (fun tk => spec_lbp (kind_of tk)) 0 c /\ dis (fun tk => spec_lbp (kind_of tk)) spec_stop false TEof c.
+Proof. exact ref_parse_sound_dis. Qed.
+Print Assumptions C04_reference_returns_the_dictated_tree.
+
+(** ... and any dictated tree of the expression has the abstract tree the parser returned. *)
+Theorem C04_returned_tree_is_the_dictated_one : forall s t tokens c, ref_parse s = Ok t -> tokenize s = Ok tokens -> map snd tokens = flat c ++ [TEof] ->
+  wf c -> prec (fun tk => spec_lbp (kind_of tk)) 0 c -> dis (fun tk => spec_lbp (kind_of tk)) spec_stop false TEof c -> unoff t = unoff (erase c).
+Proof. exact ref_parse_tree_determined. Qed.
+Print Assumptions C04_returned_tree_is_the_dictated_one.
+
+(** The code builds the reference parser's tree on every expression of the language outside the deviation class. *)
+Theorem C04_code_builds_the_reference_tree : forall s t, ref_parse s = Ok t ->
+  exists tokens c, tokenize s = Ok tokens /\ map snd tokens = flat c ++ [TEof] /\ erase c = t /\ wf c /\
+    (nodotlist c -> exists t', parse s = Ok t' /\ unoff t' = unoff t).
+Proof. exact code_agrees_with_reference. Qed.
+Print Assumptions C04_code_builds_the_reference_tree.
+
+(** Only the order of the binding powers matters, not the numbers. *)
+Theorem C04_only_the_order_matters : forall T1 S1 T2 S2 c dp fol,
+  table_order_ok T1 S1 = true -> table_order_ok T2 S2 = true ->
+  prec (fun t => T1 (kind_of t)) 0 c -> dis (fun t => T1 (kind_of t)) S1 dp fol c ->
+  prec (fun t => T2 (kind_of t)) 0 c /\ dis (fun t => T2 (kind_of t)) S2 dp fol c.
+Proof. exact prec_dis_table_independent. Qed.
+Print Assumptions C04_only_the_order_matters.
 
 (** Non-vacuity and sharpness: [a || b && c] — the tree the rules dictate meets the
     hypotheses, the other association does not; likewise [!a.b] and [*.a.b]. *)
